@@ -68,7 +68,15 @@ func (b *Built) settings(env *Env, calls *[]callRec) ([]xsel.ContextApply, error
 		out = append(out, xsel.WithNS(p, str(u)))
 	}
 	for _, v := range env.Vars {
-		r, err := b.resultOf(v.Val)
+		src := b
+		if v.Foreign && v.Val.T == "ns" {
+			twin, err := b.twin()
+			if err != nil {
+				return nil, err
+			}
+			src = twin
+		}
+		r, err := src.resultOf(v.Val)
 		if err != nil {
 			return nil, err
 		}
